@@ -39,7 +39,10 @@ static void vp_mk_ctx(sub0_ctx *c)
 	c->sock         = g_s;
 	c->node.ln_next = NULL;
 	c->node.ln_prev = NULL;
-	c->lmq.lmq_msgs = &c->lmq.lmq_buf[0]; /* inline buffer (lmq_alloc == 0); a heap array is attached by the contract otherwise */
+	/* receive queue: a heap ring of SUB_QSLOTS slots, each holding a real message object */
+	c->lmq.lmq_msgs = (nng_msg **) __CPROVER_allocate(SUB_QSLOTS * sizeof(nng_msg *), 0);
+	c->lmq.lmq_msgs[0] = VP_NEW(struct nng_msg); c->lmq.lmq_msgs[1] = VP_NEW(struct nng_msg);
+	c->lmq.lmq_msgs[2] = VP_NEW(struct nng_msg); c->lmq.lmq_msgs[3] = VP_NEW(struct nng_msg);
 	c->recv_queue.ll_offset = VP_AIO_OFF; /* nni_aio_list_init */
 	real_list_init_offset(&c->topics, offsetof(sub0_topic, node));
 	real_list_append(&g_s->contexts, c);
@@ -77,4 +80,4 @@ void h_sub0_matches(void) { uint8_t *body; size_t len; VP_HAVOC_GHOSTS(); vp_mk_
 #define SUB_NC 1
 #endif
 void h_sub0_recv_cb(void) { VP_HAVOC_GHOSTS(); vp_mk_sock(SUB_NC, nondet_size_t(), nondet_size_t()); sub0_recv_cb(g_pp); VP_CANARY(); }
-void h_sub0_ctx_recv(void) { nni_aio *aio; VP_HAVOC_GHOSTS(); vp_mk_sock(VPNC, 0, 0); sub0_ctx_recv((g_nc == 2 && nondet_bool()) ? (void *) g_c1 : (void *) &g_s->master, aio); VP_CANARY(); }
+void h_sub0_ctx_recv(void) { nni_aio *aio; VP_HAVOC_GHOSTS(); vp_mk_sock(nondet_size_t(), nondet_size_t(), nondet_size_t()); sub0_ctx_recv((g_nc == 2 && nondet_bool()) ? (void *) g_c1 : (void *) &g_s->master, aio); VP_CANARY(); }
